@@ -64,6 +64,8 @@ impl Out {
 }
 
 const MATURITY: u64 = 3;
+/// the steered tree patterns are spread over this many jobs
+const TREE_PARTS: usize = 4;
 const FEE_BASE: u64 = 2;
 
 // ------------------------------------------------------------------------------------------
@@ -197,6 +199,15 @@ impl Form {
 	}
 }
 
+/// branch of the loop of `bucket_transactions` taken by an entry (reference walk)
+#[derive(Clone, Copy, PartialEq, Debug)]
+enum BKind {
+	Fresh,
+	Merged,
+	Own,
+	Rejected,
+}
+
 #[derive(Clone, Default)]
 struct AState {
 	utxo: BTreeMap<usize, (u64, bool)>,
@@ -230,6 +241,9 @@ struct World {
 	evicted_at: BTreeMap<usize, u64>,
 	/// structural identity of a pool entry (txpool or stempool) -> step at which it entered
 	admitted_at: HashMap<String, u64>,
+	/// output created by an evicted transaction -> was that eviction in order (the victim a leaf of
+	/// the txpool's dependency forest, or one of the non-leaf cases of the recorded finding)?
+	evicted_explained: BTreeMap<usize, bool>,
 	/// form used by `submit` (random histories pick one per submission)
 	default_form: Form,
 	/// eviction-focused history: mostly admissible submissions, few blocks
@@ -303,6 +317,7 @@ impl World {
 			step: 0,
 			evicted_at: BTreeMap::new(),
 			admitted_at: HashMap::new(),
+			evicted_explained: BTreeMap::new(),
 			default_form: Form::V3,
 			focus: false,
 			lowfee_known: BTreeSet::new(),
@@ -529,6 +544,175 @@ impl World {
 		self.evicted_at.keys().cloned().filter(|o| !created.contains(o) && !self.unspent_on_head(*o)).collect()
 	}
 
+	/// Reference walk over the txpool entries in insertion order - what `bucket_transactions` is
+	/// meant to do, written out independently on top of `transaction::aggregate` / `fee_rate`:
+	/// the branch every entry takes and the index of the eviction victim (last transaction of the
+	/// last bucket by (fee rate descending, age)).
+	fn classify_buckets(&self, txs: &[Transaction]) -> (Vec<BKind>, Option<usize>) {
+		let mut buckets: Vec<(Vec<usize>, u64, usize)> = vec![];
+		let mut index: HashMap<usize, usize> = HashMap::new();
+		let mut skipped: BTreeSet<usize> = BTreeSet::new();
+		let mut kinds = vec![];
+		for (n, tx) in txs.iter().enumerate() {
+			let mut pos: Option<usize> = None;
+			let mut reject = false;
+			for i in self.tx_ins(tx) {
+				if skipped.contains(&i) {
+					reject = true;
+				} else if let Some(p) = index.get(&i) {
+					if pos.is_some() {
+						reject = true;
+					} else {
+						pos = Some(*p);
+					}
+				}
+			}
+			let mut kind = BKind::Rejected;
+			let mut registered = None;
+			if !reject {
+				match pos {
+					None => {
+						registered = Some(buckets.len());
+						buckets.push((vec![n], tx.fee_rate(), buckets.len()));
+						kind = BKind::Fresh;
+					}
+					Some(p) => {
+						let mut raw: Vec<Transaction> = buckets[p].0.iter().map(|k| txs[*k].clone()).collect();
+						raw.push(tx.clone());
+						let agg = transaction::aggregate(&raw).ok().filter(|a| a.validate(Weighting::NoLimit).is_ok());
+						if let Some(a) = agg {
+							registered = Some(p);
+							if a.fee_rate() >= buckets[p].1 {
+								buckets[p].0.push(n);
+								buckets[p].1 = a.fee_rate();
+								kind = BKind::Merged;
+							} else {
+								buckets.push((vec![n], tx.fee_rate(), buckets.len()));
+								kind = BKind::Own;
+							}
+						}
+					}
+				}
+			}
+			match registered {
+				Some(p) => {
+					for o in self.tx_outs(tx) {
+						index.insert(o, p);
+					}
+				}
+				None => skipped.extend(self.tx_outs(tx)),
+			}
+			kinds.push(kind);
+		}
+		buckets.sort_by_key(|b| (std::cmp::Reverse(b.1), b.2));
+		let victim = buckets.last().and_then(|b| b.0.last().cloned());
+		(kinds, victim)
+	}
+
+	/// The eviction oracle.  `pre`: the txpool right before `evict_transaction` ran (with the entry
+	/// just admitted, if any), `after`: the txpool now.  The victim must be a leaf of the dependency
+	/// forest of `pre` - no remaining transaction spends one of its outputs - unless one of the two
+	/// mechanisms of the recorded finding C14-evict-breaks-joint-validity applies: (a) the remaining
+	/// child was skipped by the bucket walk (two inputs created in the pool, or a descendant of a
+	/// skipped transaction), (b) the victim itself had been given its own bucket because it would
+	/// have lowered its parent bucket's fee rate (its descendants are then indexed under the
+	/// parent's bucket).  In particular a ROOT is never evicted while a descendant that went through
+	/// the buckets stays.
+	fn eviction_oracle(&mut self, out: &mut Out, pre: &[Transaction], after: &[Transaction], ctx: &str) {
+		let gone: Vec<usize> = (0..pre.len()).filter(|n| !after.contains(&pre[*n])).collect();
+		if gone.is_empty() {
+			return;
+		}
+		let (kinds, ref_victim) = self.classify_buckets(pre);
+		let sigs: Vec<String> = pre.iter().map(|t| self.tx_sig(t)).collect();
+		// parents inside the pool: creators EARLIER in insertion order (an entry can also re-create
+		// a commitment that an earlier entry spends from the chain: that is not a dependency)
+		let mut creator: HashMap<usize, usize> = HashMap::new();
+		let mut parents: Vec<Vec<usize>> = vec![];
+		for (n, t) in pre.iter().enumerate() {
+			let mut v: Vec<usize> = self.tx_ins(t).iter().filter_map(|i| creator.get(i).cloned()).collect();
+			v.sort();
+			v.dedup();
+			parents.push(v);
+			for o in self.tx_outs(t) {
+				creator.insert(o, n);
+			}
+		}
+		let depth = {
+			let mut d = vec![0usize; pre.len()];
+			for n in 0..pre.len() {
+				d[n] = parents[n].iter().filter(|p| **p < n).map(|p| d[*p] + 1).max().unwrap_or(0);
+			}
+			d
+		};
+		self.stat_max("evict-oracle:max-forest-depth", depth.iter().cloned().max().unwrap_or(0) as u64);
+		let dependents = parents.iter().filter(|p| !p.is_empty()).count();
+		self.stat(&format!("evict-oracle:dependent-entries={}", dependents.min(5)));
+		let own = kinds.iter().filter(|k| **k == BKind::Own).count();
+		let rej = kinds.iter().filter(|k| **k == BKind::Rejected).count();
+		if own > 0 {
+			self.stat("evict-oracle:forests-with-own-bucket-child");
+		}
+		if rej > 0 {
+			self.stat("evict-oracle:forests-with-skipped-entry");
+		}
+		let listing: Vec<String> = (0..pre.len())
+			.map(|n| {
+				format!(
+					"#{} {} fee={} weight={} rate={} parents={:?} walk={:?}",
+					n,
+					sigs[n],
+					pre[n].fee(),
+					pre[n].weight(),
+					pre[n].fee_rate(),
+					parents[n].iter().map(|p| format!("#{}", p)).collect::<Vec<_>>(),
+					kinds[n]
+				)
+			})
+			.collect();
+		for x in gone {
+			let outs_x = self.tx_outs(&pre[x]);
+			let children: Vec<usize> =
+				(0..pre.len()).filter(|n| after.contains(&pre[*n]) && parents[*n].contains(&x)).collect();
+			let explained;
+			if children.is_empty() {
+				explained = true;
+				self.stat("evict-oracle:victim-is-leaf");
+				self.stat(&format!("evict-oracle:victim-is-leaf:walk={:?}:depth={}", kinds[x], depth[x].min(3)));
+				if own > 0 {
+					self.stat("evict-oracle:victim-is-leaf:forest-has-own-bucket-child");
+				}
+			} else if kinds[x] == BKind::Own {
+				explained = true;
+				self.stat("evict-oracle:non-leaf-victim:known-own-bucket-child");
+			} else if children.iter().all(|n| kinds[*n] == BKind::Rejected) {
+				explained = true;
+				self.stat("evict-oracle:non-leaf-victim:known-skipped-child");
+			} else {
+				explained = false;
+				self.stat("evict-oracle:NON-LEAF-VICTIM-VIOLATION");
+				out.raw(&format!(
+					"#ORACLE-FAIL C14 evicted-transaction-is-not-a-leaf hist={} after [{}]: evict_transaction removed #{} {} ({}) while {:?} spending its outputs stay in the txpool, and neither mechanism of the recorded eviction finding applies (the victim did not lower its parent bucket's fee rate; the children went through the buckets); txpool before the eviction (max_pool_size {}): [{}]; the bucket walk of pool.rs as written picks #{:?}",
+					self.name,
+					ctx,
+					x,
+					sigs[x],
+					if parents[x].is_empty() { "a ROOT of the dependency forest" } else { "an inner node" },
+					children.iter().map(|n| format!("#{} {}", n, sigs[*n])).collect::<Vec<_>>(),
+					self.cfg.max_pool,
+					listing.join("; "),
+					ref_victim
+				));
+			}
+			if Some(x) != ref_victim {
+				self.stat("evict-oracle:victim-differs-from-reference-walk");
+			}
+			for o in outs_x {
+				self.evicted_explained.insert(o, explained);
+			}
+		}
+	}
+
 	fn note_evicted(&mut self, gone: &[Transaction]) {
 		for g in gone {
 			for o in self.tx_outs(g) {
@@ -620,6 +804,15 @@ impl World {
 					self.stat("finding:child-admitted-after-eviction");
 					return "bad";
 				}
+				let unexplained: Vec<usize> =
+					orphans.iter().map(|x| x.1).filter(|o| self.evicted_explained.get(o) == Some(&false)).collect();
+				if !unexplained.is_empty() {
+					out.raw(&format!(
+						"#ORACLE-FAIL C14 pool-not-jointly-valid after the eviction of a non-leaf outside the recorded finding (outputs {:?} of the victim): {}",
+						unexplained, desc
+					));
+					return "bad";
+				}
 				let by_evict = !orphans.is_empty() && orphans.iter().all(|(_, o)| self.evicted_at.contains_key(o));
 				// a remaining transaction re-creates a commitment whose spender was evicted
 				let unspent_now: BTreeSet<usize> = self.node_utxo().iter().map(|x| x.0).collect();
@@ -679,7 +872,8 @@ impl World {
 		let verdict = (|| -> Result<(), String> {
 			let b = self.kit.assemble(self.head, 1, &txs, 0).map_err(|e| format!("assemble:{}", e))?;
 			let prev = self.kit.blks[self.head].block.header.clone();
-			b.validate(&prev.total_kernel_offset).map_err(|e| format!("block.validate:{:?}", e))?;
+			// (`process_block` below runs `Block::validate` itself: not repeated here)
+			let _ = &prev;
 			if b.body.weight() > global::max_block_weight().min(self.cfg.mine_w.max(24)) {
 				return Err(format!("weight {} over the limit", b.body.weight()));
 			}
@@ -914,6 +1108,10 @@ impl World {
 			&& tx.kernels().len() > 1
 			&& self.pool.txpool.entries.iter().any(|e| e.tx.kernels().iter().all(|k| tx.kernels().contains(k)));
 		let missing = if deaggregates { vec![] } else { self.missing_inputs(&tx, stem_path) };
+		let my_ins = self.tx_ins(&tx);
+		let stem_len = self.pool.stempool.entries.len();
+		let stem_hit = self.pool.stempool.entries.iter().filter(|e| self.tx_ins(&e.tx).iter().any(|i| my_ins.contains(i))).count();
+		let stem_same = self.pool.stempool.contains_tx(&tx);
 		let r = catch(std::panic::AssertUnwindSafe(|| self.pool.add_to_pool(src, tx.clone(), stem, &header)));
 		let res = match &r {
 			Ok(Ok(())) => "ok".to_string(),
@@ -937,6 +1135,13 @@ impl World {
 		self.stat(&format!("form:{}:{}", form.tag(), if res == "ok" { "admitted" } else { "refused" }));
 		if res.starts_with("panic") {
 			out.raw(&format!("#ORACLE-FAIL C14 pool-panicked hist={} {} => {}", self.name, lhs, res));
+		}
+		if !stem_path && res == "ok" && stem_hit > 0 {
+			self.stat(&format!(
+				"stem-conflict:{}:stempool={}",
+				if stem_same { "stem-entry-arrives-fluffed" } else { "fluff-double-spends-stem-input" },
+				stem_len.min(4)
+			));
 		}
 		// a transaction with an input that exists nowhere must be refused: in particular a child of
 		// an evicted transaction submitted after the eviction
@@ -1004,6 +1209,10 @@ impl World {
 			self.stat("evictions-on-submit");
 			self.stat(&format!("evictions-on-submit:pool-size-before={}", before.len()));
 			self.note_evicted(&gone);
+			// the txpool as `evict_transaction` saw it: the old entries and the one just admitted
+			let mut pre = before.clone();
+			pre.extend(after.iter().filter(|a| !before.contains(a)).cloned());
+			self.eviction_oracle(out, &pre, &after, &lhs);
 		}
 		self.over_capacity_before = before.len() > self.cfg.max_pool;
 		if res == "ok" {
@@ -1058,6 +1267,24 @@ impl World {
 				self.stat_max("reorg:max-depth", old_h.saturating_sub(self.fork_height(bid)));
 			}
 			let lhs = format!("pool reconcile_block b{} ins=[{}] kers=[{}]", bid, ids(&ins, "o"), ids(&ks, "k"));
+			// shape of the stempool the block meets: entries that stand on the chain alone
+			let mut created_tx = BTreeSet::new();
+			for e in self.pool.txpool.entries.iter() {
+				created_tx.extend(self.tx_outs(&e.tx));
+			}
+			let independent =
+				self.pool.stempool.entries.iter().filter(|e| !self.tx_ins(&e.tx).iter().any(|i| created_tx.contains(i))).count();
+			if !self.pool.stempool.entries.is_empty() {
+				self.stat(&format!(
+					"block-connect:stempool={}:not-spending-txpool-outputs={}",
+					self.pool.stempool.entries.len().min(4),
+					independent.min(4)
+				));
+				let hit = self.pool.stempool.entries.iter().filter(|e| self.tx_ins(&e.tx).iter().any(|i| ins.contains(i))).count();
+				if hit > 0 {
+					self.stat(&format!("block-connect:block-double-spends-stem-inputs:stempool={}", self.pool.stempool.entries.len().min(4)));
+				}
+			}
 			let r = self.pool.reconcile_block(&b);
 			out.line(&lhs, &match r {
 				Ok(()) => "ok".to_string(),
@@ -1124,6 +1351,7 @@ impl World {
 		}
 		self.note_evicted(&gone);
 		out.line("pool evict", if r.is_ok() { "ok" } else { "panic" });
+		self.eviction_oracle(out, &before, &after, "pool evict");
 		self.stat("op:evict");
 		self.obs(out, "pool evict");
 	}
@@ -2333,6 +2561,369 @@ fn scenario_forms(work: &str, out: &mut Out, total: &mut BTreeMap<String, u64>) 
 	merge_stats(&w, total);
 }
 
+
+/// one node of a dependency tree: parent node (None: spends an unspent output of the chain),
+/// number of outputs, fee
+#[derive(Clone, Debug)]
+struct Node {
+	parent: Option<usize>,
+	nout: usize,
+	fee: u64,
+}
+
+fn node(parent: Option<usize>, nout: usize, rate: u64) -> Node {
+	// weight of a 1-input, `nout`-output, 1-kernel transaction times the wanted fee rate
+	Node { parent, nout, fee: World::weight_of(1, nout) * rate + 7 }
+}
+
+/// Steered fee patterns over dependency TREES (see `bucket_transactions`): a child that lowers
+/// its parent bucket's rate even after cut-through gets its own bucket, its descendants are indexed
+/// under the parent's bucket, merged children raise the bucket's rate; eviction takes the last
+/// transaction of the last bucket.  `expect_leaf`: with pool.rs as written the victim is a leaf.
+fn tree_patterns() -> Vec<(&'static str, Vec<Node>, bool)> {
+	// (seven of them run in the quick tier - `quick_set` below -, all in the thorough tier)
+	vec![
+		// P <- D, D <- E, D <- F: D lowers P's bucket rate (own bucket), E and F pay less than P's
+		// rate on their own, E is the cheapest leaf, D+E+F together pay more per weight than P
+		("P-D-EF:E-cheapest", vec![node(None, 1, 200), node(Some(0), 2, 102), node(Some(1), 1, 100), node(Some(1), 1, 196)], true),
+		("P-D-EF:F-cheapest", vec![node(None, 1, 200), node(Some(0), 2, 102), node(Some(1), 1, 196), node(Some(1), 1, 100)], true),
+		// D is the cheapest: the inner node goes while E and F stay (mechanism (b) of the finding)
+		("P-D-EF:D-cheapest", vec![node(None, 1, 200), node(Some(0), 2, 100), node(Some(1), 1, 104), node(Some(1), 1, 196)], false),
+		// deeper: P <- D <- E <- G and D <- F; G the cheapest leaf
+		("P-D-E-G+F:G-cheapest", vec![node(None, 1, 200), node(Some(0), 2, 102), node(Some(1), 1, 104), node(Some(2), 1, 96), node(Some(1), 1, 196)], true),
+		// deeper, E (inner, own bucket) the cheapest
+		("P-D-E-G+F:E-cheapest", vec![node(None, 1, 200), node(Some(0), 2, 102), node(Some(1), 1, 90), node(Some(2), 1, 96), node(Some(1), 1, 196)], false),
+		// every child raises the rate: one bucket [P, D, E, F], the last one goes
+		("P-D-EF:all-merged", vec![node(None, 1, 100), node(Some(0), 2, 200), node(Some(1), 1, 300), node(Some(1), 1, 300)], true),
+		// the root pays least of all but its descendants lift the bucket: still the leaf
+		("P-D-EF:root-cheapest-merged", vec![node(None, 1, 20), node(Some(0), 2, 60), node(Some(1), 1, 80), node(Some(1), 1, 90)], true),
+		// star: three children of one root with three outputs, one merged, two in own buckets
+		("star:P-CDE", vec![node(None, 3, 150), node(Some(0), 1, 300), node(Some(0), 1, 40), node(Some(0), 1, 60)], true),
+		// two independent trees, the cheapest transaction is a leaf of the second
+		("two-trees:leaf-cheapest", vec![
+			node(None, 1, 200), node(Some(0), 2, 102), node(Some(1), 1, 100), node(Some(1), 1, 196),
+			node(None, 1, 180), node(Some(4), 2, 92), node(Some(5), 1, 85), node(Some(5), 1, 170),
+		], true),
+		// two independent trees, the cheapest is the inner node of the second
+		("two-trees:inner-cheapest", vec![
+			node(None, 1, 200), node(Some(0), 2, 102), node(Some(1), 1, 100), node(Some(1), 1, 196),
+			node(None, 1, 180), node(Some(4), 2, 80), node(Some(5), 1, 95), node(Some(5), 1, 170),
+		], false),
+		// the bucket of D+E+F would outrank P's if they were bucketed together (221 vs 200): P must stay
+		("P-D-EF:subtree-outranks-root", vec![node(None, 1, 200), node(Some(0), 2, 150), node(Some(1), 1, 160), node(Some(1), 1, 199)], true),
+	]
+}
+
+/// random steered tree: shape and, per node, "lowers" (below the parent's rate) or "raises"
+fn random_tree(rng: &mut Rng) -> Vec<Node> {
+	let n = rng.range(3, 7) as usize;
+	let root_rate = rng.range(80, 250);
+	let mut nodes = vec![];
+	let mut rates = vec![];
+	let mut free_outs: Vec<usize> = vec![]; // node indices with an unspent output left
+	let mut outs_left: Vec<usize> = vec![];
+	for k in 0..n {
+		let parent = if k == 0 || free_outs.is_empty() || rng.chance(1, 8) { None } else { Some(*rng.pick(&free_outs)) };
+		let nout = rng.range(1, 3) as usize;
+		let base = match parent {
+			Some(p) => rates[p],
+			None => root_rate + rng.below(40),
+		};
+		let rate = match (parent, rng.below(5)) {
+			(None, _) => base,
+			(_, 0) | (_, 1) => (base * rng.range(40, 99) / 100).max(3), // lowers
+			(_, 2) => base.saturating_sub(1).max(3),                       // just below
+			(_, 3) => base + rng.below(3),                                 // about equal
+			_ => base * rng.range(110, 250) / 100,                         // raises
+		};
+		if let Some(p) = parent {
+			outs_left[p] -= 1;
+			if outs_left[p] == 0 {
+				free_outs.retain(|x| *x != p);
+			}
+		}
+		nodes.push(node(parent, nout, rate));
+		rates.push(rate);
+		outs_left.push(nout);
+		free_outs.push(k);
+	}
+	nodes
+}
+
+/// Build each tree in an (emptied) txpool whose `max_pool_size` is one below the size of the
+/// tree, trigger evictions with well-paying independent transactions and follow up: child of the
+/// victim, more evictions, a block.
+fn scenario_evict_trees(work: &str, out: &mut Out, total: &mut BTreeMap<String, u64>, part: usize, nrandom: usize) {
+	let mut rng = Rng::new(seed_from_env().wrapping_mul(31).wrapping_add(300 + part as u64));
+	let name = format!("evict-trees-{}", part);
+	let mut w = World::new(work, &name, Cfg { max_pool: 3, max_stem: 2, mine_w: 250 });
+	print_cfg(&w, out);
+	warm_up(&mut w, out, &mut rng, 11);
+	w.print_head(out);
+	w.obs(out, "start");
+	let mut trees: Vec<(String, Vec<Node>, Option<bool>)> = vec![];
+	let quick_set = [
+		"P-D-EF:E-cheapest",
+		"P-D-EF:F-cheapest",
+		"P-D-EF:D-cheapest",
+		"P-D-E-G+F:G-cheapest",
+		"P-D-EF:all-merged",
+		"two-trees:leaf-cheapest",
+		"P-D-EF:subtree-outranks-root",
+	];
+	let thorough = tier_thorough();
+	let parts = if thorough { TREE_PARTS } else { 2 };
+	let selected: Vec<(&'static str, Vec<Node>, bool)> =
+		tree_patterns().into_iter().filter(|(l, _, _)| thorough || quick_set.contains(l)).collect();
+	for (k, (label, nodes, leaf)) in selected.into_iter().enumerate() {
+		if k % parts == part {
+			trees.push((label.to_string(), nodes, Some(leaf)));
+		}
+	}
+	let rounds = if thorough { 3 } else { 2 };
+	for k in 0..nrandom {
+		trees.push((format!("random-{}", k), random_tree(&mut rng), None));
+	}
+	for (label, nodes, expect_leaf) in trees {
+		let free = w.free_utxo();
+		let roots = nodes.iter().filter(|n| n.parent.is_none()).count();
+		if free.len() < roots + 3 {
+			out.raw(&format!("#STAT scenario:{}:{}=not-enough-outputs({})", name, label, free.len()));
+			// grow the chain a little
+			for _ in 0..2 {
+				let p = w.head;
+				if let Some(id) = w.build_block(p, 1, &[]) {
+					w.deliver(out, id);
+				}
+			}
+			continue;
+		}
+		let mut free = free;
+		// capacity: what is pooled already plus the tree, minus one
+		let cap = w.pool.txpool.entries.len() + nodes.len() - 1;
+		w.pool.config.max_pool_size = cap;
+		w.cfg.max_pool = cap;
+		out.raw(&format!(
+			"pool cfg max_pool={} max_stem={} mine_w={} fee_base={} max_tx_w={} max_block_w={} maturity={}",
+			w.cfg.max_pool,
+			w.cfg.max_stem,
+			w.cfg.mine_w,
+			FEE_BASE,
+			global::max_tx_weight(),
+			global::max_block_weight(),
+			MATURITY
+		));
+		let mut built: Vec<Transaction> = vec![];
+		let mut next_out: Vec<usize> = vec![];
+		let mut all_in = true;
+		for (k, n) in nodes.iter().enumerate() {
+			let input = match n.parent {
+				None => free.remove(0),
+				Some(p) => {
+					let outs = w.tx_outs(&built[p]);
+					let o = outs[next_out[p] % outs.len()];
+					next_out[p] += 1;
+					o
+				}
+			};
+			let tx = match w.spend(&[input], n.nout, n.fee, None) {
+				Some(t) => t,
+				None => {
+					all_in = false;
+					break;
+				}
+			};
+			let t = w.add_tx(out, tx.clone(), vec![], &format!("tree:{}", if label.starts_with("random") { "random" } else { label.as_str() }));
+			let form = if k % 3 == 1 { Form::V2 } else { Form::V3 };
+			let res = w.submit_form(out, t, TxSource::Broadcast, false, true, form);
+			if res != "ok" {
+				all_in = false;
+			}
+			built.push(tx);
+			next_out.push(0);
+		}
+		w.stat(&format!("tree:{}:built={}", label, all_in));
+		if std::env::var("VERIF_POOL_SELFTEST").is_ok() && !built.is_empty() {
+			// development aid (never set by the check): feed the eviction oracle a fabricated outcome
+			// in which the ROOT of the tree was removed, to see that it is reported
+			let pre: Vec<Transaction> = w.pool.txpool.entries.iter().map(|e| e.tx.clone()).collect();
+			let fake: Vec<Transaction> = pre.iter().filter(|t| t.kernels() != built[0].kernels()).cloned().collect();
+			w.eviction_oracle(out, &pre, &fake, &format!("SELFTEST root of {} removed", label));
+		}
+		// the well-paying outsider: admitted, then something is evicted
+		let mut victims = vec![];
+		for round in 0..rounds {
+			if free.is_empty() {
+				break;
+			}
+			let before: Vec<Transaction> = w.pool.txpool.entries.iter().map(|e| e.tx.clone()).collect();
+			let o = free.remove(0);
+			if let Some(tx) = w.spend(&[o], 1, World::weight_of(1, 1) * (1000 + 50 * round), None) {
+				let t = w.add_tx(out, tx, vec![], "tree-evicting-outsider");
+				w.submit(out, t, TxSource::Broadcast, false, true);
+			}
+			let after: Vec<Transaction> = w.pool.txpool.entries.iter().map(|e| e.tx.clone()).collect();
+			for b in before.iter().filter(|b| !after.contains(b)) {
+				let k = built.iter().position(|x| x.kernels() == b.kernels());
+				victims.push(k);
+				if round == 0 {
+					let is_leaf = match k {
+						Some(k) => !nodes.iter().enumerate().any(|(m, nd)| nd.parent == Some(k) && after.iter().any(|a| a.kernels() == built[m].kernels())),
+						None => true,
+					};
+					w.stat(&format!("tree:{}:first-victim=node{:?}:leaf={}", label, k, is_leaf));
+					if let Some(exp) = expect_leaf {
+						if exp != is_leaf {
+							out.raw(&format!(
+								"#STAT tree:{}:UNEXPECTED first victim node{:?} leaf={} (pattern designed for leaf={})",
+								label, k, is_leaf, exp
+							));
+						}
+					}
+				}
+				// a child of the victim, submitted after the eviction
+				let outs = w.tx_outs(b);
+				let spent = w.pool_spent();
+				if let Some(o) = outs.iter().find(|o| !spent.contains(o)) {
+					if let Some(ch) = w.spend(&[*o], 1, World::weight_of(1, 1) * 1500, None) {
+						let t = w.add_tx(out, ch, vec![], "child-of-evicted");
+						w.submit_form(out, t, TxSource::Broadcast, false, true, if round == 1 { Form::V2 } else { Form::V3 });
+					}
+				}
+			}
+		}
+		// blocks until the pool is empty again
+		for _ in 0..3 {
+			if w.pool.txpool.entries.is_empty() && w.pool.stempool.entries.is_empty() {
+				break;
+			}
+			let txs = w.pool.prepare_mineable_transactions().unwrap_or_default();
+			let parent = w.head;
+			let id = w.build_block(parent, 1, &txs).or_else(|| w.build_block(parent, 1, &[]));
+			if let Some(id) = id {
+				w.deliver(out, id);
+			}
+		}
+	}
+	merge_stats(&w, total);
+}
+
+
+/// Block connection and txpool admissions with a NON-EMPTY stempool of 1, 2, 3 entries that are
+/// each valid directly on the chain head (plus, with `dep`, one that spends a txpool output):
+/// an empty block; a fluffed transaction double-spending the input of one stem entry; a block
+/// double-spending the input of another; a stem entry arriving fluffed; a block from the mineable
+/// set.  After every step stempool + txpool are re-aggregated and validated on the head (`jvs`).
+fn scenario_stempool_reconcile(work: &str, out: &mut Out, total: &mut BTreeMap<String, u64>) {
+	let mut rng = Rng::new(seed_from_env().wrapping_mul(17).wrapping_add(401));
+	let mut w = World::new(work, "stempool-reconcile", Cfg { max_pool: 50, max_stem: 50, mine_w: 250 });
+	print_cfg(&w, out);
+	warm_up(&mut w, out, &mut rng, 16);
+	w.print_head(out);
+	w.obs(out, "start");
+	let w11 = World::weight_of(1, 1);
+	let block = |w: &mut World, out: &mut Out, txs: &[Transaction]| {
+		let parent = w.head;
+		let id = w.build_block(parent, 1, txs).or_else(|| w.build_block(parent, 1, &[]));
+		if let Some(id) = id {
+			w.deliver(out, id);
+		}
+	};
+	for (n, dep) in [(2usize, false), (3, false), (1, false), (2, true), (3, true), (1, true)] {
+		let label = format!("stem{}{}", n, if dep { "+dep" } else { "" });
+		let mut free = w.free_utxo();
+		let need = n + 4 + if dep { 1 } else { 0 };
+		if free.len() < need {
+			out.raw(&format!("#STAT scenario:stempool-reconcile:{}=not-enough-outputs({})", label, free.len()));
+			block(&mut w, out, &[]);
+			block(&mut w, out, &[]);
+			continue;
+		}
+		let mut stem_ids: Vec<(usize, usize)> = vec![]; // (tx id, the output it spends)
+		let mut t_out = None;
+		if dep {
+			// a txpool transaction with two outputs and a stem entry spending one of them
+			let tt = w.spend(&[free.remove(0)], 2, World::weight_of(1, 2) * FEE_BASE * 3, None).unwrap();
+			let o = w.tx_outs(&tt)[0];
+			let t = w.add_tx(out, tt, vec![], "stemrec:txpool-parent");
+			w.submit(out, t, TxSource::Broadcast, false, true);
+			let sd = w.spend(&[o], 1, w11 * FEE_BASE * 2, None).unwrap();
+			let t = w.add_tx(out, sd, vec![], "stemrec:stem-child-of-txpool");
+			w.submit_form(out, t, TxSource::PushApi, true, true, Form::V2);
+			t_out = Some(o);
+		}
+		for k in 0..n {
+			let o = free.remove(0);
+			let st = w.spend(&[o], 1 + k % 2, World::weight_of(1, 1 + k % 2) * FEE_BASE * (2 + k as u64), None).unwrap();
+			let t = w.add_tx(out, st, vec![], "stemrec:stem-on-head");
+			w.submit_form(out, t, TxSource::PushApi, true, true, if k % 2 == 0 { Form::V3 } else { Form::V2 });
+			stem_ids.push((t, o));
+		}
+		let on_head = w
+			.pool
+			.stempool
+			.entries
+			.iter()
+			.filter(|e| w.tx_ins(&e.tx).iter().all(|i| w.unspent_on_head(*i)))
+			.count();
+		w.stat(&format!("stemrec:{}:stem-entries={}:valid-on-head={}", label, w.pool.stempool.entries.len(), on_head));
+		// A: an empty block connects while the stempool is full
+		block(&mut w, out, &[]);
+		w.stat(&format!("stemrec:{}:after-empty-block:stem-entries={}", label, w.pool.stempool.entries.len()));
+		// B: a fluffed transaction double-spends the input of the middle stem entry
+		let (_, o_mid) = stem_ids[n / 2];
+		if let Some(x) = w.spend(&[o_mid], 1, w11 * FEE_BASE * 4, None) {
+			let t = w.add_tx(out, x, vec![], "stemrec:fluff-double-spend-of-stem-input");
+			w.submit(out, t, TxSource::Broadcast, false, true);
+		}
+		w.stat(&format!("stemrec:{}:after-fluff-conflict:stem-entries={}", label, w.pool.stempool.entries.len()));
+		if let Some(o) = t_out {
+			// B': a fluffed transaction spends the txpool output the dependent stem entry spends
+			if let Some(x) = w.spend(&[o], 1, w11 * FEE_BASE * 5, None) {
+				let t = w.add_tx(out, x, vec![], "stemrec:fluff-double-spend-of-txpool-output");
+				w.submit(out, t, TxSource::Broadcast, false, true);
+			}
+			w.stat(&format!("stemrec:{}:after-fluff-conflict-on-txpool-output:stem-entries={}", label, w.pool.stempool.entries.len()));
+		}
+		// C: a block double-spends the input of the first stem entry (if that is another one)
+		if n >= 2 {
+			let (_, o_first) = stem_ids[0];
+			if let Some(y) = w.spend(&[o_first], 1, 9, None) {
+				block(&mut w, out, &[y]);
+			}
+			w.stat(&format!("stemrec:{}:after-block-conflict:stem-entries={}", label, w.pool.stempool.entries.len()));
+		}
+		// D: the last stem entry arrives fluffed (the very same transaction)
+		if n >= 3 || n == 1 {
+			let (t_last, _) = stem_ids[n - 1];
+			if n == 1 {
+				// its input was double-spent in B; re-submitting shows the refusal
+			}
+			w.submit_form(out, t_last, TxSource::Fluff, false, true, Form::V3);
+			w.stat(&format!("stemrec:{}:after-same-tx-fluffed:stem-entries={}", label, w.pool.stempool.entries.len()));
+		}
+		// E: a block from the mineable set
+		let txs = w.pool.prepare_mineable_transactions().unwrap_or_default();
+		block(&mut w, out, &txs);
+		w.stat(&format!("stemrec:{}:after-mined-block:stem-entries={}", label, w.pool.stempool.entries.len()));
+		// clean up: whatever is left in the stempool is fluffed and mined
+		let left: Vec<Transaction> = w.pool.stempool.entries.iter().map(|e| e.tx.clone()).collect();
+		for (t, _) in stem_ids.iter() {
+			if left.iter().any(|l| l.kernels() == w.txs[*t].tx.kernels()) {
+				w.submit_form(out, *t, TxSource::EmbargoExpired, false, true, Form::V3);
+			}
+		}
+		for _ in 0..2 {
+			if w.pool.txpool.entries.is_empty() {
+				break;
+			}
+			let txs = w.pool.prepare_mineable_transactions().unwrap_or_default();
+			block(&mut w, out, &txs);
+		}
+	}
+	merge_stats(&w, total);
+}
+
 fn run_history(
 	work: &str,
 	out: &mut Out,
@@ -2449,6 +3040,11 @@ fn main() {
 			jobs.push((format!("evict-children-{}", v), Box::new(move |w, o, t| scenario_evict_children(w, o, t, v))));
 		}
 		jobs.push(("forms".into(), Box::new(|w, o, t| scenario_forms(w, o, t))));
+		jobs.push(("stempool-reconcile".into(), Box::new(|w, o, t| scenario_stempool_reconcile(w, o, t))));
+		let nrand = if thorough { 12 } else { 0 };
+		for part in 0..(if thorough { TREE_PARTS } else { 2 }) {
+			jobs.push((format!("evict-trees-{}", part), Box::new(move |w, o, t| scenario_evict_trees(w, o, t, part, nrand))));
+		}
 	}
 	if mode == "all" || mode == "random" {
 		let nh: usize = args.get(2).and_then(|s| s.parse().ok()).unwrap_or(if thorough { 16 } else { 4 });
@@ -2474,10 +3070,27 @@ fn main() {
 			));
 		}
 	}
+	// development aid: VERIF_ONLY=<substring> keeps the jobs whose name contains it
+	if let Ok(only) = std::env::var("VERIF_ONLY") {
+		jobs.retain(|(n, _)| n.contains(&only));
+	}
 	let njobs = jobs.len();
 	let nthreads: usize = std::env::var("VERIF_THREADS").ok().and_then(|s| s.parse().ok()).unwrap_or(8).max(1).min(njobs.max(1));
-	let queue: Mutex<std::collections::VecDeque<(usize, String, Job)>> =
-		Mutex::new(jobs.into_iter().enumerate().map(|(i, (n, j))| (i, n, j)).collect());
+	// long jobs are started first (the output order stays the job order)
+	let mut order: Vec<(usize, String, Job)> = jobs.into_iter().enumerate().map(|(i, (n, j))| (i, n, j)).collect();
+	let cost = |n: &str| -> u32 {
+		if n.starts_with("evict-trees") || n == "forms" {
+			0
+		} else if n.starts_with('h') || n.starts_with('e') && !n.starts_with("evict-") || n == "stempool-reconcile" {
+			1
+		} else if n.starts_with("evict-children") || n == "aggregate-low-fee" {
+			2
+		} else {
+			3
+		}
+	};
+	order.sort_by_key(|(i, n, _)| (cost(n), *i));
+	let queue: Mutex<std::collections::VecDeque<(usize, String, Job)>> = Mutex::new(order.into_iter().collect());
 	let results: Mutex<Vec<Option<(String, BTreeMap<String, u64>)>>> = Mutex::new((0..njobs).map(|_| None).collect());
 	let t0 = std::time::Instant::now();
 	std::thread::scope(|scope| {
